@@ -39,6 +39,11 @@ class WorkerTmp:
             os.close(fd)
             raise
 
+        # start the heartbeat clock: last_update() is compared with
+        # time.monotonic(), while a new file's mtime is wall-clock time, so a
+        # worker that hangs before its first notify() would never time out
+        self.notify()
+
     def notify(self):
         new_time = time.monotonic()
         os.utime(self._tmp.fileno(), (new_time, new_time))
